@@ -91,6 +91,8 @@ def main():
                     vals = [rng2.randint(1, 4000), rng2.randint(1, 4000), rng2.randint(1, 4000)]
                 if series:
                     cols = [[vals[0], 2 * vals[0]], [vals[1], 3 * vals[1]], [vals[2], vals[2]]]
+                    if ncase[0] % 5 == 0:
+                        cols = [c_[:1] for c_ in cols]     # (a series may be one month long)
                     if ncase[0] % 8 == 0:
                         src = Food(cols[0], cols[1], cols[2], sk + suf, sf + suf, sp + suf)
                     else:
@@ -131,7 +133,7 @@ def main():
                 # single values derived from a series keep their own form through a conversion: a total stays a total (sum, minimum,
                 # maximum over the months), one month stays "per month"
                 nser[0] += 1 if series else 0
-                if series and nser[0] % 3 == 0:
+                if series and nser[0] % 3 == 0 and len(np.atleast_1d(src.kcals)) > 1:
                     k0, f0, p0 = [np.asarray(x, dtype=float) for x in (src.kcals, src.fat, src.protein)]
                     for dn, mk_d, dsuf, nums in (("sum", lambda: src.get_nutrients_sum(), "", (k0.sum(), f0.sum(), p0.sum())),
                                                  ("month", lambda: src.get_month(1), " per month", (k0[1], f0[1], p0[1])),
@@ -178,7 +180,9 @@ def main():
             ex_.constants["MEAT_FRACTION_FAT"], ex_.constants["MEAT_FRACTION_PROTEIN"] = req.fat / req.kcals, req.protein / req.kcals
             solved = [NS_(varValue=req.kcals), NS_(varValue=req.kcals)]   # (what a solved LP variable looks like to the extractor)
             ex_.extract_meat_milk_results(solved, [req.kcals] * 2, [req.fat] * 2, [req.protein] * 2)
-            gen = ex_.extract_generic_results(solved, 1.0, req.fat / req.kcals, req.protein / req.kcals, ex_.constants)
+            # (a food whose LP variable is not in kcals, like seaweed: twice the amount at half the energy content)
+            solved2 = [NS_(varValue=2.0 * req.kcals), NS_(varValue=2.0 * req.kcals)]
+            gen = ex_.extract_generic_results(solved2, 0.5, 0.5 * req.fat / req.kcals, 0.5 * req.protein / req.kcals, ex_.constants)
             for nm, gv in (("kcals", ex_.milk.kcals), ("fat", ex_.milk.fat), ("protein", ex_.milk.protein),
                            ("meat:kcals", ex_.meat.kcals), ("meat:fat", ex_.meat.fat), ("meat:protein", ex_.meat.protein),
                            ("generic:kcals", gen.kcals), ("generic:fat", gen.fat), ("generic:protein", gen.protein)):
